@@ -72,6 +72,9 @@ func c25HelperEnv(cs *core.CallSite, g *core.FuncInfo, env c25Env, h *core.FuncI
 	for pv, arg := range c22ParamArgs(cs, h) {
 		if r := c25Role(g, env, arg); r != "" {
 			out[pv] = r
+		} else if c25StoreKind(g, env, arg, 2) == c25Raw {
+			// the underlying database of a pooled wrapper handed to the helper (c25_store.go)
+			out[pv] = c25Raw
 		}
 	}
 	return out, true
